@@ -36,8 +36,12 @@ type RunnerManager struct {
 
 // NewRunnerManager creates a new RunnerManager.
 func NewRunnerManager(runners ...Runner) *RunnerManager {
+	// Copy the runners: the slice passed in stays the caller's. Add appends to
+	// the manager's list, which would otherwise write into the spare capacity
+	// of the caller's backing array (shared, for instance, with a second
+	// manager built from the same slice).
 	return &RunnerManager{
-		runners: runners,
+		runners: append(make([]Runner, 0, len(runners)), runners...),
 	}
 }
 
